@@ -174,9 +174,16 @@ Fixpoint decode (x : enc) (n : positive) {struct x} : err * positive :=
         | _ => opaque n
         end
       else if str_eqb fam k_grpcStatus then
-        match pl with Some (PlStatus c m) => leaf (LGrpcStatus c m) n | _ => opaque n end
+        (* status.ErrorProto returns nil for the OK code: no error to rebuild *)
+        match pl with
+        | Some (PlStatus c m) => if c =? 0 then opaque n else leaf (LGrpcStatus c m) n
+        | _ => opaque n
+        end
       else if str_eqb fam k_gogoStatus then
-        match pl with Some (PlStatus c m) => leaf (LGogoStatus c m) n | _ => opaque n end
+        match pl with
+        | Some (PlStatus c m) => if c =? 0 then opaque n else leaf (LGogoStatus c m) n
+        | _ => opaque n
+        end
       else opaque n
     else if mem_str fam multi_decoder_keys && knows p fam then
       (* join.Join(causes...): nil when there is no cause, then opaque *)
@@ -221,7 +228,9 @@ Fixpoint decode (x : enc) (n : positive) {struct x} : err * positive :=
         end
       else if str_eqb fam k_withAssert then wrap WAssert
       else if str_eqb fam k_withMark then
-        match pl with Some (PlMark m tys) => wrap (WMark (mkem m tys)) | _ => opaque end
+        (* a mark holds at least the type of the error it was taken from: a payload
+           without types is malformed and falls back to the opaque type *)
+        match pl with Some (PlMark m (t :: tys)) => wrap (WMark (mkem m (t :: tys))) | _ => opaque end
       else if str_eqb fam k_withSafeDetails then wrap (WSafeDetails rep)
       else if str_eqb fam k_withSecondary then
         match pl with
